@@ -85,7 +85,7 @@ func runCrash(prop string) *ShardResult {
 	switch prop {
 	case "C01":
 		cc.Depth = 2
-		cc.WorkLen = func(l int) int { return []int{0, 3, 1, 1}[l] }
+		cc.WorkLen = func(l int) int { return wlen([]int{0, 3, 1, 1}, l) }
 		cc.Alpha = func(l int, m *core.Model) []core.Op {
 			if l == 1 {
 				ops := appendOps(m, full)
@@ -96,7 +96,7 @@ func runCrash(prop string) *ShardResult {
 		}
 	case "C02":
 		cc.Depth = 3
-		cc.WorkLen = func(l int) int { return []int{0, 2, 1, 1}[l] }
+		cc.WorkLen = func(l int) int { return wlen([]int{0, 2, 1, 1}, l) }
 		cc.Alpha = func(l int, m *core.Model) []core.Op {
 			if l == 1 {
 				// a torn forced seal (tail truncation inside the tail) is a torn batch too
@@ -107,7 +107,7 @@ func runCrash(prop string) *ShardResult {
 	case "C03":
 		cc.Depth = 2
 		cc.Cont = true
-		cc.WorkLen = func(l int) int { return []int{0, 2, 1, 1}[l] }
+		cc.WorkLen = func(l int) int { return wlen([]int{0, 2, 1, 1}, l) }
 		cc.Alpha = func(l int, m *core.Model) []core.Op {
 			ops := appendOps(m, [][]int{{4}, {12}, {4, 4}})
 			ops = append(ops, delOps(m, true, true)...)
@@ -118,7 +118,7 @@ func runCrash(prop string) *ShardResult {
 		}
 	case "C08":
 		cc.Depth = 1
-		cc.WorkLen = func(l int) int { return []int{0, 3, 1, 1}[l] }
+		cc.WorkLen = func(l int) int { return wlen([]int{0, 3, 1, 1}, l) }
 		cc.Alpha = func(l int, m *core.Model) []core.Op {
 			ops := []core.Op{{K: "S", Key: "k1", Val: []byte("a")}, {K: "S", Key: "k1", Nil: true}, {K: "U", Key: "k2", U64: 7}}
 			ops = append(ops, appendOps(m, [][]int{{4, 4}})...)
@@ -126,7 +126,7 @@ func runCrash(prop string) *ShardResult {
 		}
 	case "C13":
 		cc.Depth = 2
-		cc.WorkLen = func(l int) int { return []int{0, 3, 1, 1}[l] }
+		cc.WorkLen = func(l int) int { return wlen([]int{0, 3, 1, 1}, l) }
 		cc.Alpha = func(l int, m *core.Model) []core.Op {
 			if l == 1 {
 				ops := appendOps(m, [][]int{{4}, {4, 4, 4}})
@@ -136,7 +136,7 @@ func runCrash(prop string) *ShardResult {
 		}
 	case "C04":
 		cc.Depth = 2
-		cc.WorkLen = func(l int) int { return []int{0, 3, 2, 1}[l] }
+		cc.WorkLen = func(l int) int { return wlen([]int{0, 3, 2, 1}, l) }
 		cc.Alpha = func(l int, m *core.Model) []core.Op {
 			if l == 1 {
 				ops := appendOps(m, [][]int{{4}, {4, 4}, {12, 4, 4}})
@@ -259,4 +259,12 @@ func runSegCrash() *ShardResult {
 	}
 	res.Samples = st.Samples
 	return res
+}
+
+// wlen indexes a per-level table, repeating the last entry for deeper levels.
+func wlen(t []int, l int) int {
+	if l >= len(t) {
+		return t[len(t)-1]
+	}
+	return t[l]
 }
